@@ -103,7 +103,7 @@ func (s *Translator) applyPatternConstraintBalance(part *PatternPart, stepIndex 
 				if traversalStep.Expansion == nil || !traversalStep.hasPreviousFrameBinding() {
 					return nil
 				}
-			} else if traversalStep.RightNodeBound && !traversalStep.hasPreviousFrameBinding() {
+			} else if traversalStep.RightNodeBound && (!traversalStep.hasPreviousFrameBinding() || traversalStep.LeftNode.Identifier == traversalStep.RightNode.Identifier) {
 				return nil
 			}
 
@@ -436,7 +436,7 @@ func (s *Translator) buildTraversalPatternRoot(partFrame *Frame, traversalStep *
 				},
 			}},
 		})
-	} else if traversalStep.RightNodeBound && partFrame.Previous == nil {
+	} else if traversalStep.RightNodeBound && (partFrame.Previous == nil || traversalStep.LeftNode.Identifier == traversalStep.RightNode.Identifier) {
 		// Self-referential pattern: the right node reuses the left node's variable (e.g. (u)-[]->(u)).
 		// There is no previous frame to promote as a FROM source. Join only the left node table and
 		// push the right-node join condition into WHERE so that start_id and end_id both reference
